@@ -1,6 +1,8 @@
 CONSTANTS
   Depth = 7
   AllVias = TRUE
+  LastAllVias = FALSE
   Prune = TRUE
   PruneLast = FALSE
+  Repr = FALSE
 SPECIFICATION Spec
